@@ -213,4 +213,17 @@ def expectSuperCsrJ (j : Json) : Except String Json := do
   let st ← csrOf j "state"
   pure <| Json.mkObj [("value", ciJ (expectSuperCsr (← getNat j "n") o st))]
 
+/-- {left, right, scalar_is_ket} -> `inner_csr` (the 1x1 special case is left to the oracle) -/
+def innerCsrJ (j : Json) : Except String Json := do
+  let l ← csrOf j "left"
+  let r ← csrOf j "right"
+  pure <| Json.mkObj [("value", ciJ (if l.rows = 1 then innerCsrBra l r else innerCsrKet ciConj l r))]
+
+/-- {left, op, right} -> `inner_op_csr` -/
+def innerOpCsrJ (j : Json) : Except String Json := do
+  let l ← csrOf j "left"
+  let o ← csrOf j "op"
+  let r ← csrOf j "right"
+  pure <| Json.mkObj [("value", ciJ (if l.rows = 1 then innerOpCsrBra l o r else innerOpCsrKet ciConj l o r))]
+
 end Qv.Drv.C01
